@@ -83,6 +83,8 @@ func C01(c *Ctx) {
 	c.importTableRule("C01-11")
 	c.getterShapeRule("C01-12")
 	c.typePredicateRule("C01-13")
+	c.typecastIdentityRule("C01-14")
+	c.loaderConfigRule("C01-15")
 }
 
 // wrapperRule: wrappers never surround nodes that may return (value, error).
@@ -194,7 +196,7 @@ func usesAsArgDeep(v ssa.Value) []ssa.CallInstruction {
 // visibilityRules: cross-package visibility (shared by C01 and C05).
 func (c *Ctx) visibilityRules(rule string) {
 	r := c.R
-	r.Rule(rule, "visibility: isExternalPkg(p) ⇔ p != nil ∧ thisPkg.PkgPath != p.Path(); isStructFieldAccessible(struct, name) ⇒ struct type is a struct ∧ (¬external(pkg of the struct type) ∨ ast.IsExported(name)); in the source-path resolvers every field/method node is built only under ¬(external ∧ ¬IsExported(member name)) where external is computed from the package of the very type the member was looked up in")
+	r.Rule(rule, "visibility: isExternalPkg(p) ⇔ p != nil ∧ thisPkg.PkgPath != p.Path(); isStructFieldAccessible(struct, name) ⇒ name is not the blank identifier ∧ struct type is a struct ∧ (¬external(pkg of the struct type) ∨ ast.IsExported(name)); in the source-path resolvers every field/method node is built only under ¬(external ∧ ¬IsExported(member name)) where external is computed from the package of the very type the member was looked up in")
 	if fn := c.MustMethod(rule, "/pkg/builder", "assignmentBuilder", "isExternalPkg"); fn != nil {
 		rc := c.Reach(fn)
 		tr := rc.RetCond(0, true)
@@ -229,6 +231,8 @@ func (c *Ctx) visibilityRules(rule string) {
 		unnamed := c.M(false, func(t *core.Term) bool {
 			return t.Kind == "extract" && t.Name == "1" && t.Args[0].Kind == "typeassert,ok" && t.Args[0].Name == "*types.Named"
 		})
+		notBlank := c.M(false, eqConst(func(t *core.Term) bool { return t.String() == leaf }, `"_"`))
+		r.Check(rule, FnKey(fn)+":true⇒not-blank", c.Pos(fn.Pos()), len(tr) > 0 && tr.Implies(notBlank), "the blank field `_` is called accessible: it can neither be read nor assigned (`dst._ = src._` does not compile); true-condition: "+tr.Describe(c.O))
 		r.Check(rule, FnKey(fn)+":true⇒struct", c.Pos(fn.Pos()), len(tr) > 0 && tr.Implies(isStruct), "true-condition: "+tr.Describe(c.O))
 		r.Check(rule, FnKey(fn)+":true⇒visible", c.Pos(fn.Pos()), len(tr) > 0 && tr.Implies(local, exported, unnamed), "a member can be called accessible although the struct's package is external and the member unexported; true-condition: "+tr.Describe(c.O))
 	}
